@@ -58,6 +58,8 @@ SUPERS3 = {
     'r2': a([[1, 1, 0], [-1, 1, 0], [0, 0, 1]]), 's4': a([[2, 1, 0], [0, 2, 0], [0, 0, 1]]), 'conv4': a([[-1, 1, 1], [1, -1, 1], [1, 1, -1]]),
     'conv2': a([[0, 1, 1], [1, 0, 1], [1, 1, 0]]), 't6': a([[1, 2, 0], [0, 3, 0], [0, 0, 2]]), 'd231': np.diag([2, 3, 1]), 'k5': a([[2, 1, 0], [-1, 2, 0], [0, 0, 1]]),
     't3': a([[1, 0, 1], [0, 1, 1], [0, 0, 3]]),
+    # a description whose reduced cell vectors have pairwise ratios a_i.a_j / a_i.a_i of exactly +-1/2 (hcp)
+    'h4': a([[2, -1, 0], [-1, -2, 1], [-2, -1, 0]]),
 }
 SUPERS2 = {
     'd21': np.diag([2, 1]), 'd12': np.diag([1, 2]), 'd31': np.diag([3, 1]), 'd22': np.diag([2, 2]), 'r2': a([[1, 1], [-1, 1]]), 's4': a([[2, 1], [0, 2]]),
@@ -207,7 +209,7 @@ def recover(pname, sname, order):
 # (primitive, supercell, ordering)
 QUICK = [('fcc', 'conv4', 0), ('fcc', 'd211', 1), ('bcc', 'conv2', 0), ('sc', 'r2', 1), ('sc', 'd311', 0), ('hcp', 'd211', 1), ('hcp', 'r2', 0),
          ('b2', 'd221', 1), ('b2', 't3', 0), ('square', 'r2', 0), ('square', 'k5', 1), ('square', 't6', 0), ('honeycomb', 'd21', 1),
-         ('honeycomb', 'd31', 0), ('rect-ab', 's4', 1), ('tetra-ab', 'd122', 0), ('mono-c1', 'd211', 1), ('mono-c1', 's4', 0)]
+         ('honeycomb', 'd31', 0), ('rect-ab', 's4', 1), ('tetra-ab', 'd122', 0), ('mono-c1', 'd211', 1), ('mono-c1', 's4', 0), ('hcp', 'h4', 0)]
 THOROUGH = QUICK + [(p, s, o) for p in ('sc', 'fcc', 'bcc', 'hcp', 'b2', 'tetra-ab', 'mono-c1') for s in sorted(SUPERS3) for o in (0, 2)
                     if (p, s, o) not in QUICK] + \
     [(p, s, o) for p in ('square', 'honeycomb', 'rect-ab') for s in sorted(SUPERS2) for o in (0, 2) if (p, s, o) not in QUICK]
